@@ -19,10 +19,27 @@ Definition clearly_valid (f : list Z) (es : list entry) (e : entry) : bool :=
   forallb (fun x => negb (wellformed f x) || eqb_of listener_dec (e_l x) (e_l e) ||
                     negb (listeners_conflict (e_l e) (e_l x))) es.
 
+(* `an invalid listener entry never disables the valid ones`, evaluated against the implementation's own
+   admitted list: walking the input in order, an entry that is well-formed, first of its name among the
+   well-formed entries before it, and in conflict with no listener that the implementation admitted
+   before it, must itself be admitted *)
+Fixpoint valid_kept (f : list Z) (seen : list string) (adm_before : list listener) (es : list entry) (obs : list listener) : bool :=
+  match es with
+  | [] => true
+  | e :: r =>
+      let l := e_l e in
+      if wellformed f e && negb (smem (l_name l) seen) then
+        let admitted := in_l l obs in
+        (existsb (listeners_conflict l) adm_before || admitted) &&
+        valid_kept f (l_name l :: seen) (if admitted then adm_before ++ [l] else adm_before)%list r obs
+      else valid_kept f seen adm_before r obs
+  end.
+
 Definition admission_spec_ok (f : list Z) (es : list entry) (obs : list listener) : bool :=
   admitted_ok f obs &&
   forallb (fun l => existsb (fun e => wellformed f e && eqb_of listener_dec (e_l e) l) es) obs &&
-  forallb (fun e => negb (clearly_valid f es e) || in_l (e_l e) obs) es.
+  forallb (fun e => negb (clearly_valid f es e) || in_l (e_l e) obs) es &&
+  valid_kept f [] [] es obs.
 
 Definition admit_case (id : Z) (fl : flags) (es : list entry) (obs : list listener) (obs_err : bool) : list Z :=
   let f := forbidden_of fl in
